@@ -164,7 +164,11 @@ def gen_route(rng, net, canonical=False):
                 if rng.random() < 0.35 and len(cur[t]) > 1:
                     perm = list(range(len(cur[t])))
                     rng.shuffle(perm)
-                    out.append({"op": "transpose", "t": t, "perm": perm})
+                    tr = {"op": "transpose", "t": t, "perm": perm}
+                    if rng.random() < 0.25:
+                        # the same permutation with some axes counted from the end
+                        tr["neg"] = [bool(rng.random() < 0.5) for _ in perm]
+                    out.append(tr)
                     cur[t] = [cur[t][p] for p in perm]
                 if rng.random() < 0.3:
                     out.append({"op": "flush", "t": t})
@@ -223,7 +227,13 @@ def run_route(values, legs, decisions, stats=None, audit_cb=None, derived=None):
             t = d["t"]
             if t not in cur:
                 continue
-            cur[t] = cur[t].transpose(tuple(d["perm"]))
+            perm_arg = tuple(d["perm"])
+            if d.get("neg"):
+                nd_ = len(perm_arg)
+                perm_arg = tuple(p - nd_ if ng else p for p, ng in zip(perm_arg, d["neg"]))
+                if stats is not None:
+                    stats["route.transpose_negative_axes"] += 1
+            cur[t] = cur[t].transpose(perm_arg)
             lg[t] = [lg[t][p] for p in d["perm"]]
         elif op == "flush":
             t = d["t"]
@@ -546,14 +556,16 @@ class C04(EngineBase):
                 continue
             st.stats["oracle.routes_compared"] += 1
             if res[0] == "raised":
-                self.report(st, "route-independent", "route",
+                self.report(st, "route-independent", "route-raised",
                             f"canonical route succeeds but route {r} raised {res[1]}: {res[2]}",
                             ["raise-mismatch"])
                 continue
             v0, l0 = ref[1], ref[2]
             v, lg = res[1], res[2]
             if lg != l0:
-                self.report(st, "route-independent", "route", f"free legs {lg} vs {l0}", [])
+                # (its own class: a shortened program whose route merely stops
+                # early must not pass for the value mismatch being minimised)
+                self.report(st, "route-independent", "route-legs", f"free legs {lg} vs {l0}", [])
                 continue
             if S.kind_of(v0) == "S" or S.kind_of(v) == "S" or v0.ndim == 0:
                 a = self._scalar(v0)
